@@ -84,9 +84,16 @@ func elemTSx(t reflect.Type) *Sx {
 	return L(A("other"), SStr(t.String()))
 }
 
-func valSx(x interface{}) *Sx {
+// valSx serialises a Go value; nesting beyond 40 levels (a cyclic value, e.g. a slice that aliases a
+// buffer containing itself) is cut off with an opaque marker instead of recursing forever.
+func valSx(x interface{}) *Sx { return valSxD(x, 0) }
+
+func valSxD(x interface{}, depth int) *Sx {
 	if x == nil {
 		return A("nil")
+	}
+	if depth > 40 {
+		return T("opaque", SStr("too-deep-or-cyclic"))
 	}
 	switch v := x.(type) {
 	case bool:
@@ -142,7 +149,7 @@ func valSx(x interface{}) *Sx {
 		for i := 0; i < rv.Len(); i++ {
 			e := rv.Index(i)
 			if e.CanInterface() {
-				out = append(out, valSx(e.Interface()))
+				out = append(out, valSxD(e.Interface(), depth+1))
 			} else {
 				out = append(out, T("opaque", SStr("unexported")))
 			}
@@ -156,7 +163,7 @@ func valSx(x interface{}) *Sx {
 			keys := rv.MapKeys()
 			ks := make([]*Sx, 0, len(keys))
 			for _, k := range keys {
-				ks = append(ks, valSx(k.Interface()))
+				ks = append(ks, valSxD(k.Interface(), depth+1))
 			}
 			sort.Slice(ks, func(i, j int) bool { return ks[i].String() < ks[j].String() })
 			return L(append([]*Sx{A("set"), elemTSx(rt.Key())}, ks...)...)
@@ -171,7 +178,7 @@ func valSx(x interface{}) *Sx {
 			out := []*Sx{A("map")}
 			for _, k := range names {
 				e := rv.MapIndex(reflect.ValueOf(k).Convert(rt.Key()))
-				out = append(out, L(SStr(k), valSx(e.Interface())))
+				out = append(out, L(SStr(k), valSxD(e.Interface(), depth+1)))
 			}
 			return L(out...)
 		}
@@ -181,11 +188,11 @@ func valSx(x interface{}) *Sx {
 			return T("opaque", SStr("nil-"+rt.String()))
 		}
 		if rv.Elem().Kind() == reflect.Struct {
-			return structSx(rv.Elem(), true)
+			return structSxD(rv.Elem(), true, depth+1)
 		}
 		return T("opaque", SStr(rt.String()))
 	case reflect.Struct:
-		return structSx(rv, false)
+		return structSxD(rv, false, depth+1)
 	case reflect.Func:
 		if id, ok := fnIDs[rv.Pointer()]; ok {
 			return T("fn", SStr(id))
@@ -195,7 +202,9 @@ func valSx(x interface{}) *Sx {
 	return T("opaque", SStr(fmt.Sprintf("%T", x)))
 }
 
-func structSx(rv reflect.Value, isPtr bool) *Sx {
+func structSx(rv reflect.Value, isPtr bool) *Sx { return structSxD(rv, isPtr, 0) }
+
+func structSxD(rv reflect.Value, isPtr bool, depth int) *Sx {
 	rt := rv.Type()
 	out := []*Sx{A("struct"), SStr(rt.String()), SBool(isPtr)}
 	for i := 0; i < rt.NumField(); i++ {
@@ -203,7 +212,7 @@ func structSx(rv reflect.Value, isPtr bool) *Sx {
 		if f.PkgPath != "" {
 			continue
 		}
-		out = append(out, L(SStr(f.Name), valSx(rv.Field(i).Interface())))
+		out = append(out, L(SStr(f.Name), valSxD(rv.Field(i).Interface(), depth+1)))
 	}
 	return L(out...)
 }
